@@ -78,6 +78,33 @@ Proof.
   apply vec_eqb_eq in H1, H2, H3, H4. destruct a, b. cbn in *. now subst.
 Qed.
 
+Lemma list_eqb_refl {A} (eqb : A -> A -> bool) (l : list A) :
+  (forall x, eqb x x = true) -> list_eqb eqb l l = true.
+Proof. intro H. induction l as [|x l IH]; [reflexivity|]. cbn. now rewrite H, IH. Qed.
+
+Lemma list_eqb_eq {A} (eqb : A -> A -> bool) (a b : list A) :
+  (forall x y, eqb x y = true -> x = y) -> list_eqb eqb a b = true -> a = b.
+Proof.
+  intro H. revert b. induction a as [|x a IH]; intros [|y b] E; try discriminate; [reflexivity|].
+  cbn in E. apply andb_prop in E. destruct E as [E1 E2]. f_equal; [now apply H|now apply IH].
+Qed.
+
+Lemma ovec_eqb_refl o : ovec_eqb o o = true.
+Proof. destruct o; [apply vec_eqb_refl|reflexivity]. Qed.
+
+Lemma ovec_eqb_eq a b : ovec_eqb a b = true -> a = b.
+Proof.
+  destruct a, b; cbn; try discriminate; [|reflexivity]. intro H. f_equal. now apply vec_eqb_eq.
+Qed.
+
+Lemma oz_eqb_refl o : oz_eqb o o = true.
+Proof. destruct o; [apply Z.eqb_refl|reflexivity]. Qed.
+Lemma ctr_eqb_refl c : ctr_eqb c c = true.
+Proof. unfold ctr_eqb. now rewrite !vec_eqb_refl. Qed.
+Lemma ictr_eqb_refl c : ictr_eqb c c = true.
+Proof. unfold ictr_eqb. now rewrite Bool.eqb_reflx, ctr_eqb_refl. Qed.
+
+
 (* adding the contributions of a list of pods to a start value *)
 Definition addall (f : pinfo -> sums) (l : list (Z * pinfo)) (b : sums) : sums :=
   fold_left (fun s p => sums_add s (f (snd p))) l b.
